@@ -66,6 +66,7 @@ struct Step
     std::vector<std::string> argv;   // without argv[0]
     std::vector<int> env_state;      // per entry: 0 unset, 1 set empty, 2 set to env_word
     std::vector<std::string> env_word;
+    int neighbours = 0; // != 0: variables whose names merely start with (or end in) a bound name are set as well
 
     template <class A>
     void io(A& a)
@@ -73,6 +74,7 @@ struct Step
         a("argv", argv);
         a("envs", env_state);
         a("envw", env_word);
+        a("neighbours", neighbours);
     }
 };
 
@@ -724,6 +726,18 @@ inline void apply_env(const Case& c, const Step& st)
             continue; // shares the variable of an earlier entry
         std::string n = env_name(i);
         int es = i < st.env_state.size() ? st.env_state[i] : 0;
+        // unrelated variables next to the bound one (set first, so that they come first in environ):
+        // NAME_MAX, NAME0 and XNAME are not NAME
+        ::unsetenv((n + "_MAX").c_str());
+        ::unsetenv((n + "0").c_str());
+        ::unsetenv(("X" + n).c_str());
+        if (st.neighbours)
+        {
+            ::unsetenv(n.c_str());
+            ::setenv((n + "_MAX").c_str(), "9", 1);
+            ::setenv((n + "0").c_str(), "true", 1);
+            ::setenv(("X" + n).c_str(), "neighbour", 1);
+        }
         if (es == 0)
             ::unsetenv(n.c_str());
         else if (es == 1)
@@ -736,7 +750,13 @@ inline void apply_env(const Case& c, const Step& st)
 inline void clear_env()
 {
     for (std::size_t i = 0; i < 16; ++i)
-        ::unsetenv(env_name(i).c_str());
+    {
+        std::string n = env_name(i);
+        ::unsetenv(n.c_str());
+        ::unsetenv((n + "_MAX").c_str());
+        ::unsetenv((n + "0").c_str());
+        ::unsetenv(("X" + n).c_str());
+    }
 }
 
 // positional index probes (C12) taken while the arguments object is alive
